@@ -275,7 +275,15 @@ func (o *orchestrator) runMode(mode, stripe string, lo, hi int) {
 			next = ex.res.Next
 		}
 		if !have {
-			o.c.Violation("C20:crash:"+mode+":before-first-case", map[string]interface{}{"stderr": clipStr(ex.stderr, 4000)})
+			switch {
+			case ex.stalled:
+				o.c.Count("watchdog_fired", 1)
+				o.c.Inconclusive(fmt.Sprintf("mode %s: child made no progress before recording its first case", mode))
+			case strings.Contains(ex.stderr, "snapcore/snapd/"):
+				o.c.Violation("C20:crash:"+mode+":before-first-case", map[string]interface{}{"stderr": clipStr(ex.stderr, 4000)})
+			default:
+				o.c.Inconclusive(fmt.Sprintf("mode %s: child died before its first case without a crash report (exit %d, signal %v)", mode, ex.code, ex.signal))
+			}
 			return
 		}
 		w := map[string]interface{}{"case_index": caseBase[mode] + inf.Idx, "mode": mode, "case": inf.Desc, "input_len": inf.Len,
